@@ -60,6 +60,7 @@ type loopCut struct {
 	heapAt   map[string]*Term // heap right after the havoc
 	freshAt  int              // number of fresh objects at the cut
 	lets     map[string]Value
+	evBase   int
 }
 
 type State struct {
@@ -80,7 +81,13 @@ type State struct {
 	trail   []string
 	defs    map[int]*seqDef // pending definitional seqEq markers
 	definable map[int]bool
+	reads   []streamRead
+	evBase  int // event builtins see st.events[evBase:]
 	opaque  int // !=0: event builtins refer to the (invisible) trace of callee activation #opaque
+}
+
+type streamRead struct {
+	k, off, n *Term
 }
 
 type chanQuery struct {
@@ -96,7 +103,7 @@ type seqDef struct {
 func (st *State) top() *Frame { return st.frames[len(st.frames)-1] }
 
 func (st *State) clone() *State {
-	n := &State{pure: st.pure, chanVer: st.chanVer, steps: st.steps, definable: st.definable, opaque: st.opaque}
+	n := &State{pure: st.pure, chanVer: st.chanVer, steps: st.steps, definable: st.definable, opaque: st.opaque, evBase: st.evBase}
 	n.frames = make([]*Frame, len(st.frames))
 	for i, f := range st.frames {
 		nf := *f
@@ -136,6 +143,7 @@ func (st *State) clone() *State {
 		n.chanQ[k] = append([]chanQuery{}, v...)
 	}
 	n.trail = append([]string{}, st.trail...)
+	n.reads = st.reads
 	if st.defs != nil {
 		n.defs = map[int]*seqDef{}
 		for k, v := range st.defs {
@@ -215,6 +223,8 @@ type Machine struct {
 	entryState *State
 	coverPCs  [][]*Term
 	ctxParent map[int]*Iface
+	runeSrc   map[int]*runeInfo
+	refute    bool
 	debug     bool
 }
 
